@@ -52,10 +52,10 @@ def loop {ω σ : Type} (runOne : ω → σ → σ × Outcome) :
     List ω → σ → Bool → Nat → Result σ
   | [], w, warned, n => ⟨w, if warned then exWarn else exOk, n⟩
   | op :: ops, w, warned, n =>
-    match runOne op w with
-    | (w', .fatal) => ⟨w', exFail, n⟩
-    | (w', .ok) => loop runOne ops w' warned (n + 1)
-    | (w', .warned) => loop runOne ops w' true (n + 1)
+    match (runOne op w).2 with
+    | .fatal => ⟨(runOne op w).1, exFail, n⟩
+    | .ok => loop runOne ops (runOne op w).1 warned (n + 1)
+    | .warned => loop runOne ops (runOne op w).1 true (n + 1)
 
 /-- One invocation with operands `ops`. -/
 def runMany {ω σ : Type} (runOne : ω → σ → σ × Outcome) (ops : List ω) (w : σ) : Result σ :=
@@ -77,10 +77,10 @@ def Acc.start {σ : Type} (w : σ) : Acc σ := ⟨w, false, false, 0⟩
 def stepAcc {ω σ : Type} (runOne : ω → σ → σ × Outcome) (a : Acc σ) (op : ω) : Acc σ :=
   if a.fatal then a
   else
-    match runOne op a.world with
-    | (w', .fatal) => { a with world := w', fatal := true }
-    | (w', .ok) => { a with world := w', completed := a.completed + 1 }
-    | (w', .warned) => { a with world := w', warned := true, completed := a.completed + 1 }
+    match (runOne op a.world).2 with
+    | .fatal => { a with world := (runOne op a.world).1, fatal := true }
+    | .ok => { a with world := (runOne op a.world).1, completed := a.completed + 1 }
+    | .warned => { a with world := (runOne op a.world).1, warned := true, completed := a.completed + 1 }
 
 def Acc.result {σ : Type} (a : Acc σ) : Result σ :=
   ⟨a.world, if a.fatal then exFail else if a.warned then exWarn else exOk, a.completed⟩
@@ -94,6 +94,35 @@ def statusOf : List Outcome → Bool → Nat → Nat × Nat
   | .fatal :: _, _, n => (exFail, n)
   | .ok :: os, warned, n => statusOf os warned (n + 1)
   | .warned :: os, _, n => statusOf os true (n + 1)
+
+/-- The outcomes as they materialise in one invocation: the world is threaded
+through, nothing follows a fatal one. -/
+def outcomes {ω σ : Type} (runOne : ω → σ → σ × Outcome) : List ω → σ → List Outcome
+  | [], _ => []
+  | op :: ops, w =>
+    match (runOne op w).2 with
+    | .fatal => [.fatal]
+    | .ok => .ok :: outcomes runOne ops (runOne op w).1
+    | .warned => .warned :: outcomes runOne ops (runOne op w).1
+
+/-- Exit status of "first these operands, then those" from the two statuses. -/
+def combineStatus (a b : Nat) : Nat :=
+  if a = exFail then exFail
+  else if b = exFail then exFail
+  else if a = exWarn ∨ b = exWarn then exWarn
+  else exOk
+
+/-- One invocation PER OPERAND, in order, each on the world the previous one
+left, stopping after the first that exits with status 1; statuses combined
+with `combineStatus`.  (This is the reference execution of checks/C18.py.) -/
+def separately {ω σ : Type} (runOne : ω → σ → σ × Outcome) : List ω → σ → Result σ
+  | [], w => ⟨w, exOk, 0⟩
+  | op :: ops, w =>
+    let a := runMany runOne [op] w
+    if a.status = exFail then a
+    else
+      let b := separately runOne ops a.world
+      ⟨b.world, combineStatus a.status b.status, a.completed + b.completed⟩
 
 /-- Outcome read off the exit status of a one-operand invocation. -/
 def outcomeOfStatus (st : Nat) : Outcome :=
@@ -142,10 +171,10 @@ def loopS {ω σ : Type} (body : ω → σ → Statics → (σ × Outcome) × St
     List ω → σ → Statics → Bool → Nat → Result σ
   | [], w, _, warned, n => ⟨w, if warned then exWarn else exOk, n⟩
   | op :: ops, w, st, warned, n =>
-    match body op w st with
-    | ((w', .fatal), _) => ⟨w', exFail, n⟩
-    | ((w', .ok), st') => loopS body ops w' st' warned (n + 1)
-    | ((w', .warned), st') => loopS body ops w' st' true (n + 1)
+    match (body op w st).1.2 with
+    | .fatal => ⟨(body op w st).1.1, exFail, n⟩
+    | .ok => loopS body ops (body op w st).1.1 (body op w st).2 warned (n + 1)
+    | .warned => loopS body ops (body op w st).1.1 (body op w st).2 true (n + 1)
 
 /-- A body respects the reset discipline when it reads the volatile statics
 only after `prologue` has overwritten them: its result is a function of the
